@@ -423,7 +423,8 @@ fn binary_case(cx: &mut CaseCtx, input: Input) -> CaseResult {
         specs.push((which, spec, expected));
     }
     if want_reject {
-        const BAD: [&str; 6] = ["", ",", " ", "./gen1,=v", "./gen1,k=v=w", "./gen1,,k=v"];
+        // (a path or key that is nothing but white space - of any kind - is empty)
+        const BAD: [&str; 10] = ["", ",", " ", "./gen1,=v", "./gen1,k=v=w", "./gen1,,k=v", "\u{a0}", "./gen1,\u{2003}=v", "\u{3000} ,k=v", "./gen1, \u{b} =v"];
         specs[0].1 = BAD[(u.arbitrary::<u8>().unwrap_or(0) as usize * BAD.len()) >> 8].to_owned();
     }
     cx.nontrivial = true;
